@@ -5,7 +5,7 @@ from pypika.terms import (
     Function,
     Term,
 )
-from pypika.utils import format_alias_sql
+from pypika.utils import builder, format_alias_sql
 
 
 class Array(Term):
@@ -51,6 +51,13 @@ class HasAny(Function):
         self.args = ()
         self.name = "hasAny"
 
+    @builder
+    def replace_table(self, current_table, new_table) -> "HasAny":
+        if isinstance(self._left_array, Term):
+            self._left_array = self._left_array.replace_table(current_table, new_table)
+        if isinstance(self._right_array, Term):
+            self._right_array = self._right_array.replace_table(current_table, new_table)
+
     def get_sql(self, with_alias=False, with_namespace=False, quote_char=None, dialect=None, **kwargs):
         sql = "{name}({left},{right})".format(
             name=self.name,
@@ -66,6 +73,12 @@ class _AbstractArrayFunction(Function, metaclass=abc.ABCMeta):
         self.alias = alias
         self.name = self.clickhouse_function()
         self._array = array
+        self.args = ()
+
+    @builder
+    def replace_table(self, current_table, new_table) -> "_AbstractArrayFunction":
+        if isinstance(self._array, Term):
+            self._array = self._array.replace_table(current_table, new_table)
 
     def get_sql(self, with_namespace=False, quote_char=None, dialect=None, **kwargs):
         sql = "{name}({array})".format(
